@@ -73,4 +73,7 @@ shutil.copy(os.path.join(src, "demo.rs"), dst)
 meta = json.load(open(os.path.join(src, "meta.json"))) if os.path.exists(os.path.join(src, "meta.json")) else {}
 meta["confirmed_by_us"] = res
 json.dump(meta, open(os.path.join(dst, "meta.json"), "w"), indent=1)
+if not os.environ.get("KEEP_COPY"):
+    shutil.rmtree(V, ignore_errors=True)
+    shutil.rmtree(os.path.join(W, "target"), ignore_errors=True)
 print(json.dumps(res, indent=1))
